@@ -4,7 +4,7 @@
 P="$1"; shift
 git -C /repo apply "$P" || { echo "PATCH DOES NOT APPLY"; exit 9; }
 for prop in "$@"; do
-  /verif/check "$prop" 2>/dev/null | grep -E "^VIOLATION|^\[" | sed -e 's/replay=.*replays/replay=.../' | awk 'NR<=4 || /^\[/'
+  /verif/check "$prop" 2>/dev/null | grep -E "^VIOLATION|^\[" | sed -e 's/replay=.*replays/replay=.../' | awk 'NR<=12 || /^\[/'
 done
 git -C /repo checkout -- .
 git -C /repo status --short | head -3
